@@ -4,6 +4,7 @@
 -/
 import PyGqlModel.SchemaValid
 import PyGqlModel.Spec.SchemaValidSpec
+import PyGqlModel.Props.C13_call
 
 set_option linter.unusedSimpArgs false
 set_option linter.unusedVariables false
@@ -241,6 +242,19 @@ private theorem validateResolverArguments_nil (path : String) (args : List ArgD)
           cases hd : p.hasDefault <;> simp_all
         · intro h p hp
           simp [h p hp]
+
+/-- **The resolver-signature rule, semantically**: for an inspectable callable (distinct parameter names, as Python
+    enforces; distinct python names of the arguments, the keys of one `**arguments` dict) `_validate_resolver_arguments`
+    reports nothing exactly when EVERY call the executor can make, `resolver(root, ctx, info, **arguments)` with the
+    required and the defaulted arguments and any subset of the others, binds under Python's call-binding rules
+    (`bindOk`; compared with CPython by correspondence stream N). -/
+theorem resolver_rule_iff_binds (path : String) (args : List ArgD) (r : ResolverD) (hcal : r.callable = true)
+    (hins : r.inspectable = true) (hd : ParamsDistinct r.params) (ha : ArgsDistinct args) :
+    validateResolverArguments path args r = [] ↔ ∀ K, Admissible args K → bindOk r.params K = true := by
+  rw [validateResolverArguments_nil]
+  constructor
+  · intro h; exact (compatible_iff_binds args r hd ha).mp (h.2 hins)
+  · intro h; exact ⟨hcal, fun _ => (compatible_iff_binds args r hd ha).mpr h⟩
 
 private theorem resolverPart_nil (rv : Bool) (path : String) (args : List ArgD) (o : Option ResolverD) :
     resolverPart Config.fixed rv path args o = [] ↔
